@@ -208,7 +208,37 @@ def showSAResult (r : Result) : String :=
   s!"{showHex r.text};{showHex r.raw};{r.npoints};" ++
     (if r.md.isEmpty then "-" else ",".intercalate (r.md.map (fun kv => s!"{kv.1}:{showMetaVal kv.2}")))
 
+/-- `E` (decoder failed) or `<text>;<raw>;<npoints>;<s…|->;<ec 0|1>;<seq,parity|->` -/
+def parseDecItem? (s : String) : Option (Option MultiSA.DecRes × Nat) :=
+  if s == "E" then some (none, 0)
+  else match s.splitOn ";" with
+    | [t, r, p, sg, ec, sa] =>
+      match parseHex? t, parseHex? r, parseNat? p with
+      | some t, some r, some p =>
+        let segs : Option (Option (List (List Nat))) :=
+          if sg == "-" then some none
+          else match parseMetaVal? sg with
+            | some (.segs l) => some (some l)
+            | _ => none
+        let sa : Option (Option (Int × Int)) :=
+          if sa == "-" then some none
+          else match parseIntList? sa with
+            | some [a, b] => some (some (a, b))
+            | _ => none
+        match segs, sa with
+        | some segs, some sa => some (some { text := t, raw := r, segs := segs, hasEC := ec == "1", sa := sa }, p)
+        | _, _ => none
+      | _, _, _ => none
+    | _ => none
+
 def handleSA : List String → Option String
+  | ["mdecode", items] => some <|
+    match (if items == "-" then some [] else (items.splitOn "|").mapM parseDecItem?) with
+    | some drs =>
+      match MultiSA.decodeMultiple MultiSA.sortBySeq drs with
+      | .ok out => "ok " ++ (if out.isEmpty then "-" else "|".intercalate (out.map showSAResult))
+      | .error e => showFault e
+    | none => "bad-op"
   | ["sa", rs] => some <|
     match (if rs == "-" then some [] else (rs.splitOn "|").mapM parseSAResult?) with
     | some rs =>
